@@ -22,6 +22,7 @@
 -- expect: false	wrong number of arguments to 'insert'
 -- expect: false	bad argument #1 to 'insert' (table expected, got nil)
 -- expect: nil	nil	1
+local unpack = unpack or table.unpack   -- global in Lua 5.1/LuaJIT, table.unpack in Lua 5.3
 local t = {}
 table.insert(t, "a"); table.insert(t, "b"); table.insert(t, 1, "z")
 print(#t, t[1], t[2], t[3])
